@@ -58,7 +58,9 @@ def scenario(args):
                 k += 1
                 raw = payload(n_, k, rng)
                 bufs.append(bytearray(raw) if btype == "bytearray" else raw)
-            ev.append(lp.stream(bufs, ask_no_ack=rng.random() < 0.3))
+            # (sometimes the answers are queued while the radio still listens and the role is switched afterwards; with custom
+            # ACK payloads enabled leaving RX mode discards the TX FIFO by design, so not there)
+            ev.append(lp.stream(bufs, ask_no_ack=rng.random() < 0.3, while_listening=not cfg.get("ackpl") and rng.random() < 0.4))
             ev.append(lp.drain())
     return dict(cfg=lp.tla_cfg(), ev=ev, meta=dict(mode=mode, pipe=pipe, btype=btype, seed=seed, cfg=cfg))
 
